@@ -1,3 +1,262 @@
-import HapVerif.Model.C12
+import HapVerif.Lemmas.C12
+import HapVerif.Generated.Facts
+/-!
+# C12 — a change is never lost to a transient failure: the next reconcile applies it
+
+Model: `HapVerif.C12.FW` = the C05 stores (backends + shard files, hosts + frontend maps) plus one
+tcp service, the backend map files, what haproxy.cfg says about the host maps, and what the
+running HAProxy holds; `upd o sh f` = one whole `instance.HAProxyUpdate` with fault `f` injected
+(`Fault`: tcp maps, frontend maps, backend maps, crt-lists, Sends of the dynamic update,
+haproxy.cfg, shard file k, reload request, reload result); `qrun` = one run of the reload queue
+worker (`Services.reloadHAProxy`).  The two retry paths: `IngressReconciler.Reconcile` requeues the
+same item after an error (`upd .none` on whatever batch accumulated, possibly none), the worker puts
+its item back after a failed `Reload` (`qrun`).
+
+Spec: `DiskGood` (every file = rendering of the in-memory model) ∧ `RunGood` (HAProxy = the files).
+
+Full-strength statement (does NOT hold for the code as it is):
+
+    theorem retry_converges (hist : List (Ev p)) (hok : allOk o sh {} hist) :   -- faults anywhere in hist
+        let r := upd o sh .none (run o sh {} hist)                               -- fault-free, empty batch
+        (o.queue = false → DiskGood o sh r.w ∧ RunGood sh r.w) ∧
+        (o.queue = true → DiskGood o sh (qrun sh .none r.w).w ∧ RunGood sh (qrun sh .none r.w).w)
+
+What is proved: `retry_converges_partial` / `retry_converges_queue_partial` for the fault points
+`Fault.good` (a failed runtime command: the update falls back to a reload; in queue mode also the
+reload request and its result, inside the worker).  For every other fault point a `decide`d
+counter-example below, replayed on the real code by the harness (same op sequences, mode `inst`).
+-/
 namespace HapVerif.C12
+open HapVerif.C05
+variable {p : Nat}
+
+theorem run_append (o : Opt) (sh : Sh p) (w : FW p) (a b : List (Ev p)) :
+    run o sh w (a ++ b) = run o sh (run o sh w a) b := by
+  simp [run, List.foldl_append]
+
+theorem allOk_append (o : Opt) (sh : Sh p) (a b : List (Ev p)) : ∀ (w : FW p),
+    allOk o sh w (a ++ b) = (allOk o sh w a && allOk o sh (run o sh w a) b) := by
+  induction a with
+  | nil => intro w; simp [allOk, run]
+  | cons e a ih => intro w; simp [allOk, run, ih, Bool.and_assoc]
+
+/-- the invariant holds along every disciplined history whose faults are good ones -/
+theorem run_inv {o : Opt} {sh : Sh p} (wf : sh.WF) (evs : List (Ev p)) : ∀ {w : FW p}, FInv o sh w →
+    allOk o sh w evs = true → (∀ e ∈ evs, goodEv o e = true) → FInv o sh (run o sh w evs) := by
+  induction evs with
+  | nil => intro w h _ _; exact h
+  | cons e evs ih =>
+    intro w h hok hg
+    simp only [allOk, Bool.and_eq_true] at hok
+    have hge := hg e List.mem_cons_self
+    have hstep : FInv o sh (step o sh w e) := by
+      cases e with
+      | upd f => exact (upd_good wf h (by simpa [goodEv] using hge)).2.1
+      | qrun f => exact qrun_inv h f
+      | acq x c => exact step_inv_batch wf h _ hok.1 (fun _ h => by cases h) (fun _ h => by cases h)
+      | rem xs => exact step_inv_batch wf h _ hok.1 (fun _ h => by cases h) (fun _ h => by cases h)
+      | hacq x c => exact step_inv_batch wf h _ hok.1 (fun _ h => by cases h) (fun _ h => by cases h)
+      | hrem xs => exact step_inv_batch wf h _ hok.1 (fun _ h => by cases h) (fun _ h => by cases h)
+      | tcp v => exact step_inv_batch wf h _ hok.1 (fun _ h => by cases h) (fun _ h => by cases h)
+      | full => exact step_inv_batch wf h _ hok.1 (fun _ h => by cases h) (fun _ h => by cases h)
+    exact ih hstep hok.2 (fun e' he' => hg e' (List.mem_cons_of_mem _ he'))
+
+/-- **C12, direct reload (`--reload-interval=0`), good fault points.**  For every shard count, shard
+function and name universe, every disciplined history of batches and updates in which the only
+faults are failed runtime commands (any Sends, any number of times, in any updates): the next
+reconcile with an empty batch returns no error, every file holds the rendering of the in-memory
+model and HAProxy holds the files. -/
+theorem retry_converges_partial (o : Opt) (sh : Sh p) (wf : sh.WF) (hq : o.queue = false) (hist : List (Ev p))
+    (hok : allOk o sh {} hist = true) (hgood : ∀ e ∈ hist, goodEv o e = true) :
+    (upd o sh .none (run o sh {} hist)).err = false ∧
+    DiskGood o sh (upd o sh .none (run o sh {} hist)).w ∧ RunGood sh (upd o sh .none (run o sh {} hist)).w := by
+  have hi := run_inv wf hist (finv_init o sh) hok hgood
+  obtain ⟨he, hf, hd⟩ := upd_good wf hi (f := .none) rfl
+  refine ⟨he, hd, ?_⟩
+  rcases hf.r with h | h
+  · rw [hf.q hq] at h; cases h
+  · exact h
+
+/-- the faulty update itself already ends converged: a failed runtime command makes the same
+update reload -/
+theorem admin_fault_converges_at_once (o : Opt) (sh : Sh p) (wf : sh.WF) (hq : o.queue = false) (hist : List (Ev p))
+    (hok : allOk o sh {} hist = true) (hgood : ∀ e ∈ hist, goodEv o e = true) (bad : List Nat) :
+    (upd o sh (.admin bad) (run o sh {} hist)).err = false ∧
+    DiskGood o sh (upd o sh (.admin bad) (run o sh {} hist)).w ∧
+    RunGood sh (upd o sh (.admin bad) (run o sh {} hist)).w := by
+  have hi := run_inv wf hist (finv_init o sh) hok hgood
+  obtain ⟨he, hf, hd⟩ := upd_good wf hi (f := .admin bad) rfl
+  refine ⟨he, hd, ?_⟩
+  rcases hf.r with h | h
+  · rw [hf.q hq] at h; cases h
+  · exact h
+
+/-- **C12, reload queue (`--reload-interval>0`), good fault points.**  The same for histories in
+which, besides failed runtime commands, the reload request or its result fails inside the queue
+worker any number of times: after the next reconcile with an empty batch and one fault-free run of
+the worker, files = model, HAProxy = files, nothing is left in the queue. -/
+theorem retry_converges_queue_partial (o : Opt) (sh : Sh p) (wf : sh.WF) (hist : List (Ev p))
+    (hok : allOk o sh {} hist = true) (hgood : ∀ e ∈ hist, goodEv o e = true) :
+    let u := upd o sh .none (run o sh {} hist)
+    let r := qrun sh .none u.w
+    u.err = false ∧ r.err = false ∧ DiskGood o sh r.w ∧ RunGood sh r.w ∧ r.w.pending = false := by
+  have hi := run_inv wf hist (finv_init o sh) hok hgood
+  obtain ⟨he, hf, hd⟩ := upd_good wf hi (f := .none) rfl
+  obtain ⟨hqe, hqp, hqr⟩ := qrun_settles hf (f := .none) rfl
+  exact ⟨he, hqe, qrun_diskGood hd _, hqr, hqp⟩
+
+/-! ### non-vacuity and the counter-examples, one per fault point outside `Fault.good`
+
+Each history below is also a corpus case of the harness (`c12instCorpus`), run on the real
+`haproxy.Instance`. -/
+
+def s0 : Sh 2 := { n := 0, shardOf := fun _ => 0 }
+def s3 : Sh 2 := { n := 3, shardOf := fun x => if x.val = 0 then 2 else 0 }
+theorem s0_wf : s0.WF := by intro x; simp [s0]
+theorem s3_wf : s3.WF := by intro x; simp only [s3]; by_cases h : x.val = 0 <;> simp [h]
+
+def oD : Opt := {}
+def oQ : Opt := { queue := true }
+def oA : Opt := { needACL := fun _ => true }
+
+def c4 : Content := ⟨4, 0⟩
+def c5 : Content := ⟨5, 0⟩     -- same conf as c4, other address
+def c8 : Content := ⟨8, 0⟩     -- other conf
+
+/-- non-vacuity of `retry_converges_partial`: a runtime command fails twice in a row (the update
+reloads instead), then the change is applied dynamically, then the empty retry -/
+example :
+    let hist : List (Ev 2) := [.acq 0 c4, .hacq 0 1, .tcp 1, .upd .none,
+      .rem [0], .acq 0 c5, .upd (.admin [0]), .rem [0], .acq 0 c4, .upd (.admin [0]), .rem [0], .acq 0 c5, .upd .none]
+    allOk oD s0 {} hist = true ∧ (∀ e ∈ hist, goodEv oD e = true) ∧
+    (run oD s0 {} hist).run.back 0 = some c5 ∧ (run oD s0 {} hist).g.w.disk 0 0 = some c5 ∧
+    (upd oD s0 (.admin [0]) (run oD s0 {} (hist.take 6))).sends = 1 := by decide
+
+/-- non-vacuity of `retry_converges_queue_partial`: the worker fails twice -/
+example :
+    let hist : List (Ev 2) := [.acq 0 c4, .upd .none, .qrun .reloadSend, .qrun .reloadResult]
+    allOk oQ s0 {} hist = true ∧ (∀ e ∈ hist, goodEv oQ e = true) ∧
+    (run oQ s0 {} hist).pending = true ∧ (run oQ s0 {} hist).run.back 0 = none ∧
+    (qrun s0 .none (upd oQ s0 .none (run oQ s0 {} hist)).w).w.run.back 0 = some c4 := by decide
+
+/-- fault point 1, `change-lost-after-failed-map-write` / `half-written-files-after-fault`: the tcp
+sni map cannot be written; the retry rewrites the crt-list only (it has no guard), the map and the
+`listen` section keep the old service, nothing is reloaded -/
+theorem lost_after_failed_tcp_map_write :
+    let hist : List (Ev 2) := [.tcp 1, .upd .none, .tcp 2, .upd .tcpMaps]
+    let r := upd oD s0 .none (run oD s0 {} hist)
+    allOk oD s0 {} hist = true ∧ (upd oD s0 .tcpMaps (run oD s0 {} (hist.take 3))).err = true ∧ r.err = false ∧
+    r.w.tcp.want = 2 ∧ r.w.tcp.map = 1 ∧ r.w.tcp.crt = 2 ∧ r.w.tcp.main = 1 ∧ r.w.run.tcpMap = 1 := by decide
+
+/-- fault point 2, `change-lost-after-failed-map-write`: the frontend maps cannot be written; the
+deferred `Commit()` empties the hosts' changed-sets, the retry skips `WriteFrontendMaps`; only a later
+change of the hosts brings the maps back -/
+theorem lost_after_failed_frontend_map_write :
+    let hist : List (Ev 2) := [.hacq 0 1, .upd .none, .hrem [0], .hacq 0 2, .upd .frontMaps]
+    let r := upd oD s0 .none (run oD s0 {} hist)
+    allOk oD s0 {} hist = true ∧ r.err = false ∧
+    r.w.h.items 0 = some 2 ∧ r.w.h.maps 0 = some (1, false) ∧ r.w.run.maps 0 = some (1, false) ∧
+    (run oD s0 {} (hist ++ [.upd .none, .hrem [0], .hacq 0 3, .upd .none])).h.maps 0 = some (3, false) := by decide
+
+/-- the first update fails at the frontend maps: the retry writes the maps (`frontend.Maps == nil`) but
+haproxy.cfg is never written and nothing is ever loaded -/
+theorem first_update_failure_leaves_no_cfg :
+    let hist : List (Ev 2) := [.acq 0 c4, .hacq 0 1, .upd .frontMaps]
+    let r := upd oD s0 .none (run oD s0 {} hist)
+    allOk oD s0 {} hist = true ∧ r.err = false ∧ r.w.h.maps 0 = some (1, false) ∧
+    r.w.g.w.store.items 0 = some c4 ∧ r.w.g.w.disk 0 0 = none ∧ r.w.mainHosts = false ∧ r.w.run.back 0 = none := by decide
+
+/-- fault point 3, `change-lost-after-failed-map-write`: a backend map cannot be written -/
+theorem lost_after_failed_backend_map_write :
+    let hist : List (Ev 2) := [.acq 0 c4, .upd .none, .rem [0], .acq 0 c8, .upd .backMaps]
+    let r := upd oA s0 .none (run oA s0 {} hist)
+    allOk oA s0 {} hist = true ∧ (upd oA s0 .backMaps (run oA s0 {} (hist.take 4))).err = true ∧ r.err = false ∧
+    r.w.g.w.store.items 0 = some c8 ∧ r.w.bm 0 = some 1 ∧ r.w.g.w.disk 0 0 = some c4 := by decide
+
+/-- `update-keeps-failing-after-failed-map-write`: a backend that needs ACLs is added in a batch whose
+update fails BEFORE WriteBackendMaps (here: at the tcp maps); its `PathsMap` stays nil, and from then
+on every update that renders it fails inside the template — also the ones for unrelated changes -/
+theorem update_keeps_failing_after_failed_map_write :
+    let hist : List (Ev 2) := [.tcp 1, .upd .none, .acq 0 c4, .tcp 2, .upd .tcpMaps, .upd .none]
+    allOk oA s0 {} hist = true ∧
+    (upd oA s0 .none (run oA s0 {} (hist.take 5))).err = false ∧        -- the retry: "configurations match"
+    (upd oA s0 .none (run oA s0 {} (hist ++ [.acq 1 c4]))).err = true ∧    -- an unrelated backend is added
+    (upd oA s0 .none (run oA s0 {} (hist ++ [.acq 1 c4, .upd .none]))).err = false ∧
+    (upd oA s0 .none (run oA s0 {} (hist ++ [.acq 1 c4, .upd .none, .tcp 3]))).err = true := by decide
+
+/-- fault point 4, `half-written-files-after-fault`: the tcp crt-list cannot be written; the retry
+writes it (no guard) but haproxy.cfg keeps the old service and nothing is reloaded -/
+theorem lost_after_failed_crtlist_write :
+    let hist : List (Ev 2) := [.tcp 1, .upd .none, .tcp 2, .upd .crtLists]
+    let r := upd oD s0 .none (run oD s0 {} hist)
+    allOk oD s0 {} hist = true ∧ r.err = false ∧
+    r.w.tcp.map = 2 ∧ r.w.tcp.crt = 2 ∧ r.w.tcp.main = 1 ∧ r.w.run.tcpMap = 1 ∧ r.w.run.tcpCrt = 1 := by decide
+
+/-- fault point 6a, `change-lost-after-failed-cfg-write`: haproxy.cfg cannot be written -/
+theorem lost_after_failed_cfg_write :
+    let hist : List (Ev 2) := [.acq 0 c4, .upd .none, .rem [0], .acq 0 c8, .upd .mainCfg]
+    let r := upd oD s0 .none (run oD s0 {} hist)
+    allOk oD s0 {} hist = true ∧ r.err = false ∧
+    r.w.g.w.store.items 0 = some c8 ∧ r.w.g.w.disk 0 0 = some c4 ∧ r.w.run.back 0 = some c4 := by decide
+
+/-- fault point 6b, `change-lost-after-failed-cfg-write`: the second changed shard file cannot be
+written: the first one holds the new backend, the second one the old; not even a full resync
+(`config.Clear()`, everything parsed again) rewrites it, because `Shrink` finds nothing changed -/
+theorem lost_after_failed_shard_write :
+    let hist : List (Ev 2) := [.acq 0 c4, .acq 1 c4, .upd .none, .rem [0], .acq 0 c8, .rem [1], .acq 1 c8, .upd (.shard 2)]
+    let r := upd oD s3 .none (run oD s3 {} hist)
+    let r2 := upd oD s3 .none (run oD s3 {} (hist ++ [.upd .none, .full, .acq 0 c8, .acq 1 c8]))
+    allOk oD s3 {} (hist ++ [.upd .none, .full, .acq 0 c8, .acq 1 c8]) = true ∧ r.err = false ∧
+    r.w.g.w.disk 0 1 = some c8 ∧ r.w.g.w.disk 2 0 = some c4 ∧ r.w.g.w.store.items 0 = some c8 ∧
+    r2.err = false ∧ r2.w.g.w.disk 2 0 = some c4 ∧ r2.w.run.back 0 = some c4 := by decide
+
+/-- fault points 8a / 8b, `reload-not-retried-after-failed-reload`: without a reload queue the failed
+reload is returned as an error and the reconcile is retried, but the retry finds "old and new
+configurations match" and does not reload: the files are right, HAProxy never reads them -/
+theorem reload_not_retried_after_failed_reload :
+    let hist : List (Ev 2) := [.acq 0 c4, .upd .none, .rem [0], .acq 0 c8]
+    let r1 := upd oD s0 .none (upd oD s0 .reloadSend (run oD s0 {} hist)).w
+    let r2 := upd oD s0 .none (upd oD s0 .reloadResult (run oD s0 {} hist)).w
+    allOk oD s0 {} hist = true ∧ (upd oD s0 .reloadSend (run oD s0 {} hist)).err = true ∧
+    r1.err = false ∧ r1.w.g.w.disk 0 0 = some c8 ∧ r1.w.run.back 0 = some c4 ∧
+    r2.err = false ∧ r2.w.g.w.disk 0 0 = some c8 ∧ r2.w.run.back 0 = some c4 := by decide
+
+/-- a write fault in queue mode is lost the same way (the queue only retries the reload) -/
+theorem queue_does_not_help_a_failed_write :
+    let hist : List (Ev 2) := [.acq 0 c4, .upd .none, .qrun .none, .rem [0], .acq 0 c8, .upd .mainCfg]
+    let r := qrun s0 .none (upd oQ s0 .none (run oQ s0 {} hist)).w
+    allOk oQ s0 {} hist = true ∧ r.err = false ∧ r.w.pending = false ∧
+    r.w.g.w.store.items 0 = some c8 ∧ r.w.g.w.disk 0 0 = some c4 := by decide
+
+/-! ### regenerated facts: the Go source still has the shape the model assumes -/
+
+/-- `HAProxyUpdate` defers `Commit()` before anything else, shrinks, then runs the four writers in the
+modelled order, each returning at once on error; the dynamic updater; the gate in front of
+`writeConfig`; `updated` returns nil; the reload queue gets `Add`, otherwise `Reload` is returned.
+`Reload` has one error path.  `Reconcile` swallows the error and asks for the same item again after
+`ReloadRetry`; the queue worker puts its item back.  Runtime commands need committed data.  Files
+are written in place with `os.WriteFile` after every template of the set was executed. -/
+theorem facts_c12 :
+    Facts.c12UpdateStmts = ["if:i.config==nil=>return:nil", "defer:i.config.Commit", "call:i.config.SyncConfig",
+      "call:i.config.Shrink",
+      "if-init:i.config.WriteTCPServicesMaps();err!=nil=>return:fmt.Errorf",
+      "if-init:i.config.WriteFrontendMaps();err!=nil=>return:fmt.Errorf",
+      "if-init:i.config.WriteBackendMaps();err!=nil=>return:fmt.Errorf",
+      "if-init:i.writeCrtLists();err!=nil=>return:fmt.Errorf",
+      "call:timer.Tick", "if:!i.options.fake", "assign:i.newDynUpdater()", "assign:updater.update()",
+      "if:i.options.SortEndpointsBy!=\"random\"", "call:i.config.Backends().FillSourceIPs",
+      "if:!updated||updater.cmdCnt>0||i.config.Backends().Changed()", "call:i.updateCertExpiring", "defer:?",
+      "if:updated=>return:nil", "if:i.options.ReloadQueue!=nil=>return:nil", "return:i.Reload(timer)"] ∧
+    Facts.c12ReloadStmts = ["if:i.options.TrackInstances", "assign:i.reloadHAProxy()", "if:err!=nil=>return:fmt.Errorf",
+      "assign:true", "assign:\"haproxy successfully reloaded\"", "if:i.options.IsExternal",
+      "if:i.options.TrackInstances", "return:nil"] ∧
+    Facts.c12ReconcileRequeue = ["RequeueAfter=r.Config.ReloadRetry"] ∧
+    Facts.c12ReconcileCalls = ["r.watchers.getChangedObjects", "r.Services.ReconcileIngress", "r.log.Error",
+      "r.Config.ReloadRetry.String"] ∧
+    Facts.c12QueueWorkerCalls = ["s.instance.Reload", "s.reloadQueue.AddAfter"] ∧
+    Facts.c12DynGate = ["d.config.hasCommittedData()&&d.checkConfigChange()"] ∧
+    Facts.c12WriteToDiskOS = ["os.Stat", "os.Rename", "os.IsNotExist", "os.Remove", "os.IsNotExist", "os.WriteFile"] ∧
+    Facts.c12WriteOutputCalls = ["t.tmpl.Execute", "t.writeToDisk"] := by
+  decide
+
 end HapVerif.C12
